@@ -147,6 +147,50 @@ def check_leg_transforms(rec, leg, rng, others=None):
         rec.check(np.array_equal(qflat_phys(ee), np.concatenate([q, qflat_phys(extra)])) and ee.qconj == leg.qconj,
                   'LegCharge.extend(leg):charge-per-index', f'extra qconj={extra.qconj} charges={extra.charges.ravel().tolist()}',
                   dict(inp, extra=(extra.qconj, extra.slices.tolist(), extra.charges.ravel().tolist())))
+    # block bookkeeping helpers
+    from tenpy.linalg.charges import LegCharge, ChargeInfo
+    sizes = leg.get_block_sizes()
+    rec.check(np.array_equal(sizes, np.diff(leg.slices)) and all(leg.get_slice(b) == slice(int(leg.slices[b]), int(leg.slices[b + 1]))
+                                                                  for b in range(leg.block_number)), 'LegCharge.get_block_sizes/get_slice', '', inp)
+    for b in range(leg.block_number):
+        rec.check(np.array_equal(leg.get_charge(b), leg.qconj * leg.charges[b]), 'LegCharge.get_charge', '', inp)   # documented: charges * qconj
+    _, sb = leg.sort(bunch=True)
+    for b in range(sb.block_number):          # blocked leg: charge -> block is the inverse of block -> charge
+        okq, qi = rec.guarded('LegCharge.get_qindex_of_charges:exception', lambda: sb.get_qindex_of_charges(sb.get_charge(b)), inp)
+        rec.check(okq and int(qi) == b, 'LegCharge.get_qindex_of_charges:inverse-of-get_charge', f'block {b} -> {qi if okq else None}', inp)
+    cs = leg.charge_sectors()
+    exp_cs = np.unique(leg.charges, axis=0) if leg.block_number else leg.charges
+    exp_cs = exp_cs[np.lexsort(exp_cs.T)] if len(exp_cs) and exp_cs.shape[1] else exp_cs
+    rec.check(np.array_equal(cs, exp_cs), 'LegCharge.charge_sectors', f'{cs.tolist()} vs {exp_cs.tolist()}', inp)
+    pq = rng.permutation(leg.block_number)
+    pf = leg.perm_flat_from_perm_qind(pq)
+    exp_pf = np.concatenate([np.arange(leg.slices[b], leg.slices[b + 1]) for b in pq]) if leg.block_number else np.arange(0)
+    rec.check(np.array_equal(pf, exp_pf), 'LegCharge.perm_flat_from_perm_qind', '', inp)
+    okp, back = rec.guarded('LegCharge.perm_qind_from_perm_flat:exception', lambda: leg.perm_qind_from_perm_flat(pf), inp)
+    rec.check(okp and np.array_equal(back, pq), 'LegCharge.perm_qind_from_perm_flat:inverse', f'{pq.tolist()} -> {back.tolist() if okp else None}', inp)
+    # constructors deriving legs from legs: charge per index is what the documentation says
+    tr = LegCharge.from_trivial(leg.ind_len, leg.chinfo, leg.qconj)
+    rec.check(tr.ind_len == leg.ind_len and not np.any(tr.to_qflat()) and tr.qconj == leg.qconj, 'LegCharge.from_trivial', '', inp)
+    if leg.chinfo.qnumber >= 1:
+        dropped = LegCharge.from_drop_charge(leg, 0)
+        rec.check(np.array_equal(dropped.to_qflat(), leg.to_qflat()[:, 1:]) and dropped.qconj == leg.qconj and dropped.chinfo.qnumber == leg.chinfo.qnumber - 1,
+                  'LegCharge.from_drop_charge:charge-per-index', '', inp)
+        other = LegCharge.from_qflat(ChargeInfo([1], ['extra']), rng.integers(-1, 2, size=(leg.ind_len, 1)), leg.qconj)
+        added = LegCharge.from_add_charge([leg, other])
+        rec.check(np.array_equal(added.to_qflat(), np.hstack([leg.to_qflat(), other.to_qflat()])) and added.qconj == leg.qconj,
+                  'LegCharge.from_add_charge:charge-per-index', '', inp)
+        newmod = 2
+        chg = LegCharge.from_change_charge(leg, 0, newmod, 'changed')
+        expq = leg.to_qflat().copy()
+        expq[:, 0] = np.mod(expq[:, 0], newmod)
+        rec.check(np.array_equal(chg.to_qflat(), expq) and chg.chinfo.mod[0] == newmod, 'LegCharge.from_change_charge:charge-per-index', '', inp)
+        for nm, lg in (('from_drop_charge', dropped), ('from_add_charge', added), ('from_change_charge', chg)):
+            try:
+                lg.test_sanity()
+                ok_claims = (not lg.sorted or gen.spec_sorted(lg.charges)) and (not lg.bunched or gen.spec_bunched(lg.charges))
+            except Exception as e:
+                ok_claims = False
+            rec.check(ok_claims, f'LegCharge.{nm}:sanity-and-claims', f'sorted={lg.sorted} bunched={lg.bunched} charges={lg.charges.tolist()}', inp)
     e2 = leg.extend(2)
     rec.check(np.array_equal(qflat_phys(e2)[:leg.ind_len], q) and e2.ind_len == leg.ind_len + 2, 'LegCharge.extend(int):prefix', '', inp)
 
